@@ -22,6 +22,30 @@ CHECKS = {
    text='Aggregation.tla: TLC explores every split of the rows into contiguous blocks and every interleaving of the threads (the schedule quantifier) and the engine source partition rule for all N,T in a range: total = sum of weight x value, each row exactly once, termination; AggData.tla emits every permutation of every subset of a row pool with exact expected value/gradient/Hessian/BHHH aggregates (weighted or not, every prefix split); each is replayed into BIOGEME.calculate_likelihood, calculate_likelihood_and_derivatives (scaled or not) and simulate for thread counts 1..N+2 and 0, repeated for T>1, with the engine-boundary calls (thread count, weight signature, data rows) checked.',
    note='trusted: TLC; the engine internal schedule is not observable from Python (Dispatch is its contract); integer-valued polynomial likelihood compared at 1e-12',
    technique='TLA+ specs Aggregation/AggPartition/AggData + TLC schedule exploration, spec->code replay over thread counts', ref='5 C04'),
+ 'C08': dict(
+   text='Results.tla defines every reported figure from the raw outcome by its defining formula (exact rationals, Moore-Penrose inverse for singular Hessians, terms for ln/sqrt/Phi) and the mapping (row label, column) -> quantity of every table; TLC checks family separation, Penrose conditions and table naming on the model and enumerates raw outcomes (K<=3, negative definite / singular Hessians, PSD BHHH, with and without null likelihood and bootstrap); each is replayed into a real bioResults and ~550 figures per outcome are compared (statistics, estimated-parameter tables, correlation, general statistics, covariance families, compile_estimation_results, likelihood_ratio_test).',
+   note='trusted: TLC, vb/terms.py + libm for ln/sqrt/Phi/chi-square; cells with non-positive variance (library sentinels) are not compared; tolerances 1e-9 / 1e-8',
+   technique='TLA+ spec Results + TLC enumeration of raw outcomes, spec->code replay into bioResults', ref='5 C08'),
+ 'C11': dict(
+   text='DrawTypes.tla holds the 21-name catalogue as a specification table and generates every family (exact radical inverse in rationals, nondeterministic iid/MLHS over a grid, transforms x / 2x-1 / probit, first-half ++ mirror); TLC checks radical-inverse laws, distinct bases, mirror laws and emits exact Halton behaviours that are compared entry by entry with the real generators and Database.generate_draws; arrays recorded from all 21 real generators (several sizes and seeds) are judged by DrawTypesTrace.tla with the model acceptance predicates (shape, support, strata permutation, mirror, symmetric map, quantile flags).',
+   note='trusted: TLC; the accuracy of the normal quantile is numeric and is decided by the driver against erfc (flag required by the spec); NORMAL/NORMAL_ANTI underlying uniforms are not observable',
+   technique='TLA+ spec DrawTypes + TLC, spec->code replay (Halton) and code->spec trace validation (DrawTypesTrace)', ref='5 C11'),
+ 'C12': dict(
+   text='Audit.tla defines validity of a specification along every path of a formula DAG (unknown column, one name two kinds, placement of draws / integration variables / trajectory, logit keys, choice and availabilities free of draws) for the estimation object and for direct evaluation on panel and non-panel data; TLC generates formulas with fault leaves in every operand slot of every operator class (1 operator modulo thinning, 2-3 operators modulo a residue class) with the expected verdict, and AuditScenarios.tla enumerates nest structures, data tables, derivative flags, choice columns and missing-data reads; each case is handed to the real BIOGEME(...), BIOGEME({log_like}) or get_value_c in a forked child: the library error type with a message exactly when invalid, no exception when valid.',
+   note='trusted: TLC; key/choice slots hold leaves only; a read missing value may fail with any exception type; simulate on missing data is not an observation point',
+   technique='TLA+ specs Audit/AuditScenarios + TLC fault planting, spec->code replay of verdicts in forked children', ref='5 C12'),
+ 'C16': dict(
+   text='Catalog.tla models controllers, catalogs (shared and nested), configurations and every neighbourhood operator as documented; TLC checks on the full state graph of each structure: #configurations = product of sizes, canonical identifiers and parse of every permutation, same index for all catalogs of a controller, configured formula = hand-written formula, closure of every operator, increase/decrease cancel, iteration visits each configuration once; configurations and operator sequences printed by TLC are replayed into the real Catalog/Controller/CentralController classes (configure_catalogs, current_configuration, selected_name, get_value_c of the configured formula, Configuration.from_string, set_of_configurations, iteration, prepare_operators).',
+   note='trusted: TLC; the random operator is checked for its support only (up to 64 seeds), not its probability law',
+   technique='TLA+ spec Catalog + TLC full state graph, spec->code replay of configurations and operator sequences', ref='5 C16'),
+ 'C17': dict(
+   text='Helpers.tla states the documented closed forms (piecewise variables/formula/function with open or closed ends, Box-Cox and its limit, uniform/triangular/normal/lognormal/logistic densities, regression log likelihood, segmentation, nested-logit correlation) as exact rationals or terms; TLC checks the identities between them on the model (sum of variables = clipped distance, formula = function, unit mass, correlation structure) and emits every case with its expected value; each is replayed into the real helper expressions/functions (incl. exec of segmented_code) and compared (1e-12 exact families, 1e-9 term families); Box-Cox continuity is a Lipschitz bound in the exponent across the switching point.',
+   note='trusted: TLC, vb/terms.py + libm; "integrates to one" for normal/lognormal is the driver quadrature of the replayed expression (numeric clause)',
+   technique='TLA+ spec Helpers + TLC case generation, spec->code replay of helper values', ref='5 C17'),
+ 'C20': dict(
+   text='Aliases.tla models Python attribute resolution (C3 linearisation computed in the spec, own dictionaries, deprecation wrappers with captured or dynamic dispatch, keyword renaming) over constants extracted from the imported package (162 classes, 120 wrappers, 33 driver-made redefining subclasses); TLC checks for every receiver and every deprecated name visible on it that the alias reaches the function the advertised new name reaches, and the name-correspondence rule; every emitted (receiver, alias) pair is replayed with spies on the real classes, linearisations are compared with __mro__, keyword cases run through the real wrappers, and several hundred aliases are called with real arguments comparing results, receiver state, files and warnings.',
+   note='trusted: TLC, Python introspection of the package; class-qualified calls (Base.old(obj)) are outside the model; 483-608 pairs are checked by spies only',
+   technique='TLA+ spec Aliases over extracted constants + TLC, spec->code replay with spies and real-argument calls', ref='5 C20'),
 }
 
 def cmd(pid, tier):
